@@ -271,11 +271,60 @@ def judge_entrypoints(ctx, rng):
                         continue
                     if enc.get('entrypoint') != name or MB.nf(enc.get('value')) != MB.nf(a):
                         ctx.violation('C12|entrypoint-encode-decode-differs', 'decode=%r encode=%r' % (d, enc), case)
+                        continue
+                    # one long-lived helper (they live as attributes of a ContractInterface): decoding somebody else's parameters with
+                    # the entrypoint= override must not re-target it
+                    others = [(o, p_) for o, p_ in targets if o != name]
+                    if others:
+                        oname, opath = others[0]
+                        try:
+                            h = ContractEntrypoint(cx, name)
+                            h.decode(c13.sub_values(shape, lt, opath)[0], entrypoint=oname)
+                            enc2 = h.encode(arg, mode='readable')
+                            ctx.count('helper_reused_after_decode_with_override')
+                            if enc2 != enc:
+                                ctx.violation('C12|entrypoint-helper-retargeted-by-decode-override', 'encode after decode(entrypoint=%r) gave %r, before %r' % (oname, enc2, enc), case)
+                        except Exception as e:
+                            ctx.violation('C12|entrypoint-helper-retargeted-by-decode-override', 'after decode(entrypoint=%r): %r' % (oname, e), case)
+
+
+def judge_big_map_ids(ctx):
+    """Storages as a node returns them hold big-map ids (0 is the first id a chain allocates): decode / encode must keep the id."""
+    from pytezos.context.impl import ExecutionContext
+    from pytezos.contract.data import ContractData
+    bm = {'prim': 'big_map', 'args': [{'prim': 'nat'}, {'prim': 'string'}]}
+    shapes_ = [('bare', bm, lambda i: i, lambda py: py),
+               ('record', {'prim': 'pair', 'args': [dict(bm, annots=['%ledger']), {'prim': 'nat', 'annots': ['%total']}]},
+                lambda i: {'prim': 'Pair', 'args': [i, {'int': '7'}]}, lambda py: py['ledger']),
+               ('option', {'prim': 'option', 'args': [bm]}, lambda i: {'prim': 'Some', 'args': [i]}, lambda py: py),
+               ('variant', {'prim': 'or', 'args': [dict(bm, annots=['%live']), {'prim': 'unit', 'annots': ['%frozen']}]},
+                lambda i: {'prim': 'Left', 'args': [i]}, lambda py: py['live'])]
+    for name, texpr, mk, pick in shapes_:
+        for ident in (0, 1, 17, 2 ** 31):
+            m = mk({'int': str(ident)})
+            case = {'type_expr': texpr, 'value': m, 'big_map_id': ident}
+            ctx.count('big_map_id_roundtrips')
+            ctx.case(('bm-id', name, ident), nontrivial=True)
+            try:
+                from pytezos.michelson.types.base import MichelsonType
+                cls = MichelsonType.match(texpr)
+                cd = ContractData(ExecutionContext(), cls.from_micheline_value(m))
+                py = cd.decode(m)
+                back = cd.encode(py, mode='readable')
+            except Exception as e:
+                ctx.violation('C12|ContractData-raises|big-map-id|%s' % errsig(e), repr(e)[:300], case)
+                continue
+            if pick(py) != ident:
+                ctx.violation('C12|decode-loses-big-map-id|%s|id=%s' % (name, '0' if ident == 0 else 'positive'), 'decode gave %r' % (py,), case)
+            elif MB.nf(back) != MB.nf(m):
+                ctx.violation('C12|encode-decode-differs|big-map-id|' + name, 'decode=%r encode=%r' % (py, back), case)
 
 
 def run(ctx):
     rng = ctx.rng
     judge_entrypoints(ctx, rng)
+    if ctx.mine(0):
+        judge_big_map_ids(ctx)
     ctx.require('entrypoint_roundtrips', 20)
     n = ctx.pick(3000, 150000) // ctx.nshards
     ctx.rule = ('storage/parameter types depth<=%d with random field/type annotations on pair and union members (named, unnamed, '
@@ -300,6 +349,8 @@ def run(ctx):
 
 
 def replay(ctx, case):
+    if 'big_map_id' in case:
+        return judge_big_map_ids(ctx)
     if 'parameter' in case:
         return judge_entrypoints(ctx, ctx.rng)
 
